@@ -68,6 +68,17 @@ func main() {
 		n := replayCallsFile(*in, w)
 		w.close()
 		fmt.Printf("CALLS %d EVENTS %d\n", n, w.n)
+	case "replay-sched":
+		fs := flag.NewFlagSet("replay-sched", flag.ExitOnError)
+		in := fs.String("in", "", "TLC output with HIST lines (schedules)")
+		out := fs.String("out", "trace.ndjson", "output file")
+		fg := fs.Int("free", 0, "free-running goroutines (0: none)")
+		fr := fs.Int("rounds", 50, "rounds per free-running goroutine")
+		fs.Parse(os.Args[2:])
+		w := newWriter(*out)
+		n := replaySchedFile(rand.New(rand.NewSource(1)), *in, w, *fg, *fr)
+		w.close()
+		fmt.Printf("SCHEDULES %d EVENTS %d\n", n, w.n)
 	case "shrink":
 		b, err := os.ReadFile(os.Args[2])
 		if err != nil {
